@@ -7,22 +7,99 @@ from vlib.harness import Outcome, TOL_MONO_F, TOL_W, scale_of
 
 ID = "C20"
 RULE = ("Hypothesis draws a valid Linear configuration (1-8 inputs, 1-3 units, "
-        "bounded-input subsets, bias on/off, dominances, norm), a kernel/bias "
-        "from the array mixture and a batch of points inside, on and outside "
-        "the input bounds; the layer output is compared with a float64 "
-        "reference sum_i k[i,u]*clip(x_i)+b_u, and function-level consequences "
-        "are checked on weights returned by the layer's own constraint. "
-        "Non-trivial: kernel not all zero and at least one input coordinate "
-        "non-zero; distinct by SHA-1 of the case.")
+        "bounded-input subsets, bias on/off, dominances, norm), re-shapes its "
+        "input bounds (as drawn; values from a wider pool incl. -0.0, 0.1, "
+        "1e6 and arbitrary float32 in [-1e3, 1e3]; a zero-width bound; only "
+        "input_min / only input_max given; one value shared as upper bound of "
+        "one input and lower bound of another - inputs of range dominances "
+        "always keep their positive width), a spelling of the hyper-parameters "
+        "(ints / strings / tuple / one scalar / None for monotonicities; None "
+        "/ 'none' / tuple for bounds), a way of building and calling the layer "
+        "(explicit build; built by the first call; numpy input; tf.function "
+        "with unknown batch size; Keras functional model) in float32 or "
+        "float64, a kernel/bias from the array mixture and a batch of points "
+        "inside, on and outside the input bounds (seeded random choice of the "
+        "coordinates put on / beyond a bound); the layer output is compared "
+        "with a float64 reference sum_i k[i,u]*clip(x_i)+b_u, and "
+        "function-level consequences are checked on weights returned by the "
+        "layer's own constraint. Non-trivial: kernel not all zero and at "
+        "least one input coordinate non-zero; distinct by SHA-1 of the case.")
 NT_FLOOR = 0.6
 BUDGET = {"quick": 500, "thorough": 6000}
 ASSUMPTIONS = ["consequence clauses are judged only on weights that satisfy "
                "the constraints in float64 (C06 judges the projection itself)"]
 
+BOUND_SHAPES = ["asdrawn", "asdrawn", "values", "values", "zero_width",
+                "only_min", "only_max", "shared"]
+CALL_MODES = ["build", "build", "first_call", "numpy", "function", "model"]
+MONO_SPELL = ["int", "int", "str", "mixed", "tuple", "scalar", "none-arg"]
+BOUND_SPELL = ["list", "list", "none-str", "tuple", "tuple-none-str",
+               "explicit"]
+MONO_NAMES = {-1: "decreasing", 0: "none", 1: "increasing"}
+
+_bound_value = st.one_of(
+    st.sampled_from([-0.0, 0.0, 0.0, 0.1, -0.1, 1.0 / 3, 1e6, -1e6]),
+    S.f32_floats(-1e3, 1e3))
+_bound_width = st.sampled_from([0.0, 1e-3, 0.1, 1.0, 7.3, 1e6])
+
+
+@st.composite
+def _rebound(draw, cfg, shape):
+  """Re-shapes the input bounds of a drawn config in place (still valid:
+  input_min <= input_max everywhere, inputs of range dominances untouched)."""
+  d = cfg["dims"]
+  keep = set(i for p in cfg["range_dom"] for i in p)
+  free = [i for i in range(d) if i not in keep]
+  lo, hi = cfg["input_min"], cfg["input_max"]
+  if shape in ("only_min", "only_max") and cfg["range_dom"]:
+    shape = "values"      # range dominances need both bounds: keep them
+  if shape == "values":
+    for i in free:
+      sides = draw(st.sampled_from(["both", "both", "lo", "hi", "none"]))
+      v = S.f32(draw(_bound_value))
+      w = S.f32(draw(_bound_width))
+      lo[i] = v if sides in ("both", "lo") else None
+      hi[i] = S.f32(v + w) if sides in ("both", "hi") else None
+  elif shape == "zero_width" and free:
+    for n, i in enumerate(draw(st.permutations(free))):
+      if n == 0 or draw(st.integers(0, 3)) == 0:
+        lo[i] = hi[i] = S.f32(draw(_bound_value))
+  elif shape in ("only_min", "only_max"):
+    mine, other = (lo, hi) if shape == "only_min" else (hi, lo)
+    for i in range(d):
+      other[i] = None
+    if all(v is None for v in mine):
+      mine[draw(st.integers(0, d - 1))] = S.f32(draw(_bound_value))
+  elif shape == "shared" and len(free) >= 2:
+    i, j = list(draw(st.permutations(free)))[:2]
+    v = S.f32(draw(_bound_value))
+    w1, w2 = draw(_bound_width), draw(_bound_width)
+    hi[i], lo[j] = v, v
+    lo[i] = draw(st.sampled_from([None, S.f32(v - w1)]))
+    hi[j] = draw(st.sampled_from([None, S.f32(v + w2)]))
+  for a, b in zip(lo, hi):
+    assert a is None or b is None or a <= b
+  return shape
+
 
 @st.composite
 def _case(draw, tier):
   cfg = draw(S.linear_config(max_dims=8 if tier == "quick" else 12))
+  bshape = draw(st.sampled_from(BOUND_SHAPES))
+  bshape = draw(_rebound(cfg, bshape))
+  spell = {"mono": draw(st.sampled_from(MONO_SPELL)),
+           "bounds": draw(st.sampled_from(BOUND_SPELL)),
+           "pairs": draw(st.sampled_from(["tuple", "tuple", "list"])),
+           "scalar_str": draw(st.booleans())}
+  # one value / None for all inputs needs a constant vector: construct it
+  # (monotonic dominance needs increasing inputs, range dominance one shared
+  # non-zero direction).
+  if spell["mono"] == "scalar" and len(set(cfg["mono"])) > 1:
+    v = 1 if cfg["mono_dom"] else draw(st.sampled_from([-1, 1, 1]))
+    cfg["mono"] = [v] * cfg["dims"]
+  elif spell["mono"] == "none-arg":
+    cfg["mono"] = [0] * cfg["dims"]
+    cfg["mono_dom"], cfg["range_dom"] = [], []
   batch = draw(st.integers(1, 5))
   case = {
       "cfg": cfg,
@@ -33,6 +110,11 @@ def _case(draw, tier):
                              scales=[1e-3, 1.0, 1.0, 10.0, 1e3, 1e6])),
       "x_mode": draw(st.sampled_from(["free", "on_bounds", "outside"])),
       "batch": batch,
+      "aux": draw(S.seeds),
+      "bshape": bshape,
+      "spell": spell,
+      "call": draw(st.sampled_from(CALL_MODES)),
+      "dtype": draw(st.sampled_from(["float32", "float32", "float64"])),
   }
   return case
 
@@ -48,14 +130,25 @@ def _inputs(case):
       np.float64)
   lo = np.array([-np.inf if v is None else v for v in cfg["input_min"]])
   hi = np.array([np.inf if v is None else v for v in cfg["input_max"]])
+  has_lo = np.broadcast_to(np.isfinite(lo), x.shape)
+  has_hi = np.broadcast_to(np.isfinite(hi), x.shape)
+  if case.get("aux") is None:      # cases recorded before the seeded choice
+    pick3 = np.arange(b * u * d).reshape(b, u, d) % 3
+    pick2 = np.arange(b * u * d).reshape(b, u, d) % 2
+    low_side, high_side = (pick2 == 0) & has_lo, (pick2 == 1) & has_hi
+  else:
+    rs = np.random.RandomState(case["aux"])
+    pick3 = rs.randint(0, 3, size=(b, u, d))
+    pick2 = rs.randint(0, 2, size=(b, u, d))
+    # every bounded coordinate leaves its interval, on a random side
+    low_side = has_lo & ((pick2 == 0) | ~has_hi)
+    high_side = has_hi & ~low_side
   if case["x_mode"] == "on_bounds":
-    pick = (np.arange(b * u * d).reshape(b, u, d) % 3)
-    x = np.where((pick == 0) & np.isfinite(lo), lo, x)
-    x = np.where((pick == 1) & np.isfinite(hi), hi, x)
+    x = np.where((pick3 == 0) & has_lo, lo, x)
+    x = np.where((pick3 == 1) & has_hi, hi, x)
   elif case["x_mode"] == "outside":
-    pick = (np.arange(b * u * d).reshape(b, u, d) % 2)
-    x = np.where((pick == 0) & np.isfinite(lo), lo - 1 - np.abs(x), x)
-    x = np.where((pick == 1) & np.isfinite(hi), hi + 1 + np.abs(x), x)
+    x = np.where(low_side, lo - 1 - np.abs(x), x)
+    x = np.where(high_side, hi + 1 + np.abs(x), x)
   x = x.astype(np.float32)
   if u == 1:
     x = x[:, 0, :]
@@ -77,19 +170,115 @@ def _ref(x, k, bias, lo, hi, use_bias):
   return y, mag
 
 
-def _build(cfg, k, bias):
+def linear_kwargs(case):
+  """Layer kwargs in the case's spelling; same configuration as
+  S.linear_kwargs(cfg), which is used when the case carries no spelling.
+  Returns (kwargs, labels)."""
+  cfg, sp = case["cfg"], case.get("spell")
+  if not sp:
+    return S.linear_kwargs(cfg), []
+  mono, labels, kw = list(cfg["mono"]), [], {}
+  how = sp["mono"]
+  if how == "scalar" and len(set(mono)) != 1:
+    how = "str"
+  if how == "none-arg" and any(mono):
+    how = "int"
+  if how == "scalar":
+    kw["monotonicities"] = MONO_NAMES[mono[0]] if sp["scalar_str"] else mono[0]
+  elif how == "none-arg":
+    kw["monotonicities"] = None
+  elif how == "str":
+    kw["monotonicities"] = [MONO_NAMES[m] for m in mono]
+  elif how == "mixed":
+    kw["monotonicities"] = [MONO_NAMES[m] if i % 2 else m
+                            for i, m in enumerate(mono)]
+  elif how == "tuple":
+    kw["monotonicities"] = tuple(mono)
+  else:
+    kw["monotonicities"] = mono
+  labels.append("spell:mono=" + how)
+  bs = sp["bounds"]
+  for key in ("input_min", "input_max"):
+    vals = list(cfg[key])
+    if all(v is None for v in vals) and bs != "explicit":
+      continue
+    if bs in ("none-str", "tuple-none-str", "explicit"):
+      vals = ["none" if v is None else v for v in vals]
+    kw[key] = tuple(vals) if bs in ("tuple", "tuple-none-str") else vals
+  if "input_min" in kw or "input_max" in kw:
+    labels.append("spell:bounds=" + bs)
+  conv = tuple if sp["pairs"] == "tuple" else list
+  if cfg["mono_dom"]:
+    kw["monotonic_dominances"] = [conv(p) for p in cfg["mono_dom"]]
+  if cfg["range_dom"]:
+    kw["range_dominances"] = [conv(p) for p in cfg["range_dom"]]
+  if cfg["norm"]:
+    kw["normalization_order"] = cfg["norm"]
+  return kw, labels
+
+
+class _GraphCallError(Exception):
+  """The layer raised while being traced (Keras functional model / tf.function).
+
+  Keras runs Layer.call through autograph there, so the traceback has no
+  tensorflow_lattice frame and the harness could not attribute the exception to
+  the library; the configuration and the input are valid by construction, so
+  run_case reports it as the same kind of violation (kind "exception")."""
+
+
+def _traced(thunk):
+  try:
+    return thunk()
+  except Exception as e:  # pylint: disable=broad-except
+    raise _GraphCallError("%s: %s" % (type(e).__name__, str(e)[:300]))
+
+
+def _build(case, k, bias, x):
+  """Builds the layer the way the case says; returns (layer, forward, tf).
+
+  forward(z) evaluates the layer on a float array z through the case's call
+  path (eager tensor, numpy array, tf.function with unknown batch size, Keras
+  functional model); the weights are assigned after the layer exists."""
   import tensorflow as tf
   import tensorflow_lattice as tfl
-  kw = S.linear_kwargs(cfg)
+  cfg = case["cfg"]
+  dtype = case.get("dtype", "float32")
+  call = case.get("call", "build")
+  kw, _ = linear_kwargs(case)
+  if dtype != "float32":
+    kw["dtype"] = dtype
   layer = tfl.layers.Linear(num_input_dims=cfg["dims"], units=cfg["units"],
                             use_bias=cfg["use_bias"], **kw)
   shape = (None, cfg["dims"]) if cfg["units"] == 1 else (
       None, cfg["units"], cfg["dims"])
-  layer.build(shape)
-  layer.kernel.assign(k)
+  model = fn = None
+  if call == "first_call":
+    layer(tf.constant(x.astype(dtype)))
+  elif call == "model":
+    import tf_keras as keras
+    inp = keras.Input(shape=shape[1:], dtype=dtype)
+    model = keras.Model(inp, _traced(lambda: layer(inp)))
+  else:
+    layer.build(shape)
+  if call == "function":
+    fn = tf.function(lambda t: layer(t), autograph=False,
+                     input_signature=[tf.TensorSpec(shape, dtype)])
+  layer.kernel.assign(k.astype(dtype))
   if cfg["use_bias"]:
-    layer.bias.assign(bias[0] if cfg["units"] == 1 else bias)
-  return layer, tf
+    layer.bias.assign((bias[0] if cfg["units"] == 1 else bias).astype(dtype))
+
+  def forward(z):
+    z = np.asarray(z).astype(dtype)
+    if call == "numpy":
+      y = layer(z)
+    elif call == "function":
+      y = _traced(lambda: fn(tf.constant(z)))
+    elif call == "model":
+      y = _traced(lambda: model(tf.constant(z)))
+    else:
+      y = layer(tf.constant(z))
+    return y.numpy().astype(np.float64)
+  return layer, forward, tf
 
 
 def _satisfies(cfg, w, lo, hi):
@@ -116,13 +305,48 @@ def run_case(case):
   k = S.materialize(case["kernel"], (d, u))
   bias = S.materialize(case["bias"], (u, 1))[:, 0]
   x, lo, hi = _inputs(case)
-  layer, tf = _build(cfg, k, bias)
-  y = layer(tf.constant(x)).numpy().astype(np.float64)
+  dtype = case.get("dtype", "float32")
+  try:
+    layer, forward, tf = _build(case, k, bias, x)
+    y = forward(x)
+  except _GraphCallError as e:
+    out.label("exception")
+    out.nontrivial = True
+    out.violate(str(e), kind="exception", exc=str(e).split(":")[0],
+                where="linear_layer.py:call(traced)")
+    return out
   yref, mag = _ref(x, k, bias.astype(np.float64), lo, hi, cfg["use_bias"])
   out.label("units>1" if u > 1 else "units=1",
             "bias" if cfg["use_bias"] else "nobias", "x:" + case["x_mode"],
             "bounds:%s" % ("none" if not np.isfinite(lo).any() and
                            not np.isfinite(hi).any() else "some"))
+  out.label(*linear_kwargs(case)[1])
+  out.label("call:" + case.get("call", "build"), "dtype:" + dtype)
+  if u > 1 and case["x_mode"] == "outside" and (
+      np.isfinite(lo).any() or np.isfinite(hi).any()):
+    out.label("units>1&x:outside")
+  fl, fh = np.isfinite(lo), np.isfinite(hi)
+  if fl.any() and not fh.any():
+    out.label("bounds:only-min-kwarg")
+  if fh.any() and not fl.any():
+    out.label("bounds:only-max-kwarg")
+  if np.any(fl != fh):
+    out.label("bounds:one-sided-dim")
+  if np.any(lo[fl] == 0) or np.any(hi[fh] == 0):
+    out.label("bounds:zero-valued")
+  if any(v is not None and v == 0 and np.signbit(v)
+         for v in cfg["input_min"] + cfg["input_max"]):
+    out.label("bounds:negative-zero")
+  if np.any(fl & fh & (lo == hi)):
+    out.label("bounds:zero-width")
+  if any(fl[i] and fh[j] and lo[i] == hi[j] for i in range(d)
+         for j in range(d) if i != j):
+    out.label("bounds:shared-value")
+  vals = np.concatenate([lo[fl], hi[fh]])
+  if np.any(np.abs(vals) >= 1e6):
+    out.label("bounds:|v|>=1e6")
+  if np.any(vals * 1024 != np.round(vals * 1024)):
+    out.label("bounds:non-dyadic")
   out.nontrivial = bool(np.any(k != 0) and np.any(x != 0))
   out.checks += 1
   if y.shape != (case["batch"], u):
@@ -130,7 +354,9 @@ def run_case(case):
                 kind="shape")
     return out
   err = np.abs(y - yref)
-  tol = 1e-5 * (mag + 1.0)
+  # float64 layers get the same float32-representable inputs and weights, so
+  # only float64 rounding separates them from the reference.
+  tol = (1e-5 if dtype == "float32" else 1e-10) * (mag + 1.0)
   out.info["max_err_over_tol"] = float(np.max(err / tol))
   if not np.all(np.isfinite(y)) or np.any(err > tol):
     i = np.unravel_index(np.argmax(err / tol), err.shape)
@@ -142,15 +368,15 @@ def run_case(case):
   # ---- consequences on constraint-satisfying weights
   if layer.kernel.constraint is None:
     return out
-  w32 = layer.kernel.constraint(tf.constant(k)).numpy()
+  w32 = layer.kernel.constraint(tf.constant(k.astype(dtype))).numpy()
   w = w32.astype(np.float64)
   if not np.all(np.isfinite(w)) or not _satisfies(cfg, w, lo, hi):
     out.label("cons:weights-not-feasible(C06)")
     return out
   layer.kernel.assign(w32)
   out.label("cons:checked")
-  f = lambda z: layer(tf.constant(z.astype(np.float32))).numpy().astype(
-      np.float64)
+  f = lambda z: layer(tf.constant(z.astype(np.float32).astype(dtype))
+                      ).numpy().astype(np.float64)
   x3 = x if x.ndim == 3 else x[:, None, :]
   pack = (lambda z: z) if u > 1 else (lambda z: z[:, 0, :])
   base = f(pack(x3))
@@ -159,16 +385,17 @@ def run_case(case):
   for i in range(d):
     if cfg["mono"][i] == 0:
       continue
-    for delta in (0.5, 7.0):
+    for delta in (0.5, 7.0, -0.5, -7.0):     # steps up and steps down
       x2 = x3.astype(np.float64).copy()
       x2[:, :, i] += delta * max(1.0, float(np.max(np.abs(x3[:, :, i]))))
-      if not np.all(x2.astype(np.float32)[:, :, i] >= x3[:, :, i]):
+      moved = (x2.astype(np.float32)[:, :, i] - x3[:, :, i]) * np.sign(delta)
+      if not np.all(moved >= 0):
         continue
       y2 = f(pack(x2))
-      y1 = f(pack(x3))
+      y1 = base
       out.checks += 1
       fs2 = max(fs, float(np.max(np.abs(y2))))
-      bad = (y2 - y1) * cfg["mono"][i] < -TOL_MONO_F * fs2
+      bad = (y2 - y1) * cfg["mono"][i] * np.sign(delta) < -TOL_MONO_F * fs2
       if np.any(bad):
         out.violate("output not monotone (direction %d) in input %d" %
                     (cfg["mono"][i], i), kind="fn-monotonicity")
@@ -200,6 +427,31 @@ def run_case(case):
       out.violate("unit step along dominant input %d changes output less than "
                   "along weak input %d" % (a, b), kind="fn-mono-dominance")
       return out
+    # second base point: the batch itself, the two inputs moved to where a unit
+    # step stays inside their bounds (all other inputs anywhere, also clipped).
+    xs = x3.astype(np.float64).copy()
+    for dim in (a, b):
+      l, h = lo[dim], hi[dim]
+      xs[:, :, dim] = np.minimum(np.maximum(xs[:, :, dim], l), h - 1)
+    xs = xs.astype(np.float32).astype(np.float64)
+    xa, xb = xs.copy(), xs.copy()
+    xa[:, :, a] += 1
+    xb[:, :, b] += 1
+    xa = xa.astype(np.float32).astype(np.float64)
+    xb = xb.astype(np.float32).astype(np.float64)
+    if (np.all(xa[:, :, a] - xs[:, :, a] == 1) and
+        np.all(xb[:, :, b] - xs[:, :, b] == 1) and
+        np.all(xs[:, :, a] >= lo[a]) and np.all(xa[:, :, a] <= hi[a]) and
+        np.all(xs[:, :, b] >= lo[b]) and np.all(xb[:, :, b] <= hi[b])):
+      fa, fb, f0 = f(pack(xa)), f(pack(xb)), f(pack(xs))
+      out.checks += 1
+      out.label("cons:mono-dominance@batch")
+      sc = max(1.0, np.max(np.abs(fa)), np.max(np.abs(fb)), np.max(np.abs(f0)))
+      if np.any((fa - f0) - (fb - f0) < -TOL_W * sc):
+        out.violate("unit step from a batch point along dominant input %d "
+                    "changes output less than along weak input %d" % (a, b),
+                    kind="fn-mono-dominance")
+        return out
   for a, b in cfg["range_dom"]:
     x0 = np.zeros_like(x3, dtype=np.float64)
     for dim in (a, b):
@@ -219,8 +471,8 @@ def run_case(case):
     nrm = np.abs(w).sum(0)
     if np.all(np.abs(nrm - 1) < 1e-4):
       if cfg["use_bias"]:
-        layer.bias.assign(np.zeros_like(bias)[0] if u == 1 else
-                          np.zeros_like(bias))
+        layer.bias.assign((np.zeros_like(bias)[0] if u == 1 else
+                           np.zeros_like(bias)).astype(dtype))
       xin = x3.astype(np.float64)
       xc = np.minimum(np.maximum(xin, lo), hi)
       ya = f(pack(x3))
@@ -245,4 +497,12 @@ LEVEL_TEXT = ("Generated-input exploration: thousands of random valid Linear "
               "axis/transposition, clipping and bias mistakes; shows no absence.")
 LEVEL_NOTE = ("Trusted: TensorFlow/NumPy arithmetic, the harness. Sizes bounded "
               "(<= 8 inputs quick, <= 12 thorough, <= 3 units); tolerance "
-              "1e-5*(sum|terms|+1).")
+              "1e-5*(sum|terms|+1) for float32 layers, 1e-10*(sum|terms|+1) for "
+              "float64 layers. Monotonicity is probed with steps up and down from "
+              "the batch points, monotonic dominance by unit steps from a bounds "
+              "corner and from the batch points (only where the float32 step is "
+              "exactly 1 and stays inside the bounds). A layer that raises while "
+              "traced (Keras model / tf.function) is reported as a violation of "
+              "kind exception. The consequence probes always call the layer "
+              "eagerly; the build / call variants (first call, numpy, "
+              "tf.function, Keras model) are judged by the affine identity.")
